@@ -101,13 +101,17 @@ QUICK_WITS = ["MergedSilentOk", "FragmentApplied", "Truncated", "EmptyToken", "N
 SMALL_JVM = "-XX:TieredStopAtLevel=1 -XX:ParallelGCThreads=2 -XX:CICompilerCount=1"
 
 
+JTMP = [None]
+
+
 def small_jvm(on):
     """the many TLC runs of a few hundred states spend their time in JVM start-up and JIT compilation: C1 only, two GC
-    threads (HotSpot reads _JAVA_OPTIONS; only the TLC processes started by this check see it)"""
+    threads (HotSpot reads _JAVA_OPTIONS; only the TLC processes started by this check see it).  In every case TLC
+    unpacks its standard modules into a directory of this run instead of /tmp (shared, and swept by others)."""
+    opts = "-Djava.io.tmpdir=%s" % JTMP[0] if JTMP[0] else ""
     if on:
-        os.environ["_JAVA_OPTIONS"] = SMALL_JVM
-    else:
-        os.environ.pop("_JAVA_OPTIONS", None)
+        opts += " " + SMALL_JVM
+    os.environ["_JAVA_OPTIONS"] = opts.strip()
 
 
 def model_check(ctx):
@@ -393,6 +397,8 @@ def run(ctx):
     q = ctx.quick()
     rng = random.Random(ctx.seed)
     banner, errs = source_facts(ctx)
+    JTMP[0] = os.path.join(ctx.out, "jtmp")
+    os.makedirs(JTMP[0], exist_ok=True)
     model_check(ctx)
     small_jvm(q)
     picked, fam_sizes = gen_cases(ctx, rng)
